@@ -18,7 +18,8 @@ EXPLANATION = (
     "trees/code tables equal the values parsed from zlib-ng's deflate.c, deflate.h, zutil.h, trees_tbl.h, "
     "insert_string*.c, match_tpl.h (frozen extract with file hashes). Equal parameters are necessary, far from "
     "sufficient, for byte identity: match selection and block splitting are algorithmic and not decided. "
-    "SIB/ref-writes: write-set parity of the compressor core with zlib-ng's functions (see C01).")
+    "SIB/ref-writes: write-set parity of the compressor core with zlib-ng's functions (see C01). "
+    "SIB/ref-conditions: the elementary conditions and calls of the zlib-ng functions this code was ported from (oracles/condparity.json, frozen from the vendored C sources) keep a counterpart in the paired zlib-rs function.")
 
 CLAIM = dict(
     text="Static cross-language constant comparison: every tuning parameter and static table the compressed bytes depend "
